@@ -108,7 +108,7 @@ Definition meta_put c s a : state * bool :=
        | KLock =>
            let t := otgt o in
            if ent s t && negb (is_reg (tmpl c t)) then (s, false)
-           else if status c s e t =? 2 then (s, false)
+           else if (status c s e t =? 2) || (in_garb c s t =? 2) then (s, false)
            else (set_ent s a true, true)
        | KTomb =>
            let t := otgt o in
